@@ -19,6 +19,8 @@ different options `pnext` offers.
 | `partition.Service.GetJournals` (ok / limit / repaired error path) followed by the holder of the result giving it back (`cursor.close`, the error path's loop over `res`) | `vStart .getJournals sel` |
 | `partition.Service.Truncate` (visit with `deleteJournal` of empty partitions, then the `MAXDBSIZE` pass) | `vStart (.truncate items) sel` |
 | `partition.Service.deleteJournal`                                   | `dj .lock s k` (inside the two above)     |
+| `cursor.newCursor` by query: `GetJournals`, then either the cursor lives and `close()` releases every journal later, or an error path (`newFIterator` fails, the position cannot be applied) calls `releaseJournals(srcs)`; `GetJournals`' own failures (more than 50 partitions, `GetOrCreate`) are its limit / error path | `newCursorByQuery sel` = `vStart .getJournals sel` |
+| `cursor.newCursor` by `state.Src`: `GetJournal(src)`, then `close()` later or `releaseJournals` on an error | `newCursorBySrc s` = `idLoopOf [s] false` |
 
 The environment's free choices are modelled by offering all of them; a waiting caller (partition exclusively locked)
 is an option that changes neither the state nor the control state.
@@ -204,6 +206,13 @@ def pnext (a : Nat) (st : St) : Ctl → List (Lbl × Ctl)
   | .vCb kind s kept => cbOpts a st kind s kept
   | .vRet kind s kept => retOpts a kind s kept
   | .vEnd kind kept => [(.visitEnd a, afterVisit kind kept)]
+
+/-- `cursor.newCursor` for a query: every way it ends (a living cursor closed later, `releaseJournals` on a filter or
+position error, `GetJournals`' limit and error paths) gives back exactly the journals `GetJournals` kept -/
+def newCursorByQuery (sel : List Nat) : Ctl := .vStart .getJournals sel
+
+/-- `cursor.newCursor` for `state.Src` -/
+def newCursorBySrc (s : Nat) : Ctl := idLoopOf [s] false
 
 /-- the system: the shared state and every actor's control state (actors without a program are `fin`) -/
 structure Sys where
